@@ -86,6 +86,34 @@ def main():
     def snap(o):
         return snapshot_obj(o, prog, prog["top"], vsc)["f"]
 
+    def restore(obj, cname, vals):
+        """put every field of the object tree back to the values it had when the snapshot was taken"""
+        from pvmon import ref as R
+        for fd in R.all_fields(prog, cname):
+            n_ = fd["n"]
+            if n_ not in vals:
+                continue
+            v_ = vals[n_]
+            try:
+                if fd["k"] == "int":
+                    setattr(obj, n_, v_)
+                elif fd["k"] == "enum":
+                    setattr(obj, n_, bt.enums[fd["e"]][v_])
+                elif fd["k"] == "obj":
+                    restore(getattr(obj, n_), fd["c"], v_["f"])
+                elif fd["k"] == "list":
+                    if fd["ek"] == "obj":
+                        with vsc.raw_mode():
+                            l = getattr(obj, n_)
+                        for i, sv in enumerate(v_):
+                            restore(l[i], fd["c"], sv["f"])
+                    elif fd["ek"] == "enum":
+                        setattr(obj, n_, [bt.enums[fd["e"]][x] for x in v_])
+                    else:
+                        setattr(obj, n_, list(v_))
+            except Exception:
+                pass
+
     def do_call(o, op, rs_free=None):
         k = op["op"]
         try:
@@ -139,12 +167,7 @@ def main():
         for rep in range(2):
             # restoring the snapshot replays exactly the values that followed it; one RandState seeds several replays,
             # and consuming the source object in between must not matter
-            for n_, v_ in saved_vals.items():
-                try:
-                    if not isinstance(v_, (list, dict)):
-                        setattr(o, n_, v_ if not isinstance(v_, str) else bt.enums[[fd for fd in prog["classes"][prog["top"]]["fields"] if fd["n"] == n_][0]["e"]][v_])
-                except Exception:
-                    pass
+            restore(o, prog["top"], saved_vals)
             o.set_randstate(saved)
             rs2 = saved_free.clone()
             got = []
